@@ -12,8 +12,20 @@ import (
 func HarnessC19Mergeable() {
 	w := zzNewWorld()
 	threshold := verif.Concrete(verif.IntRange("threshold", 1, 3))
-	spec := zzBasePolicy([]int{0, 1, 2}, nil)
+	// optional global threshold rule on main, optional file rule on the one
+	// file every tree of this world contains
+	var globals []zzGlobalSpec
+	switch verif.Concrete(verif.Choice("globals", verif.Bound("globalmenu", 2, 3))) {
+	case 1:
+		globals = []zzGlobalSpec{{name: "g-two", pattern: "git:" + zzMain, threshold: 2}}
+	case 2:
+		globals = []zzGlobalSpec{{name: "g-three", pattern: "git:" + zzMain, threshold: 3}}
+	}
+	spec := zzBasePolicy([]int{0, 1, 2}, globals)
 	spec.rules[0].threshold = threshold
+	if verif.ConcreteBool(verif.Bool("filerule")) {
+		spec.rules = append(spec.rules, zzRuleSpec{name: "protect-file", pattern: "file:file", keys: []int{1}, threshold: 1})
+	}
 	zzMust(w.zzStageAndApply(spec, w.zzBuildState(spec, []int{0}, []int{0}), 0))
 
 	// base state of main: a first push that meets the threshold (pusher key0
@@ -24,9 +36,14 @@ func HarnessC19Mergeable() {
 	w.zzPush(zzMain, 0, 1, false)
 	mainTip := w.tips[zzMain]
 
-	// the feature branch: one commit on top of main's tip with a new tree
+	// the feature branch: one or two commits on top of main's tip, each with a
+	// new tree and a symbolic signer
 	featTree := w.zzTree(2)
-	featCommit := w.S.RawCommit(zzFeature, featTree, []githash.Hash{mainTip}, "feature work", -1)
+	featCommit := w.S.RawCommit(zzFeature, featTree, []githash.Hash{mainTip}, "feature work", zzSigner("f1"))
+	if verif.Concrete(verif.IntRange("feature.commits", 1, 2)) == 2 {
+		featTree = w.zzTree(3)
+		featCommit = w.S.RawCommit(zzFeature, featTree, []githash.Hash{featCommit}, "more feature work", zzSigner("f2"))
+	}
 	w.tips[zzFeature] = featCommit
 	w.S.Signer = 1
 	zzMust(rsl.NewReferenceEntry(zzFeature, featCommit).Commit(w.S, true))
@@ -67,7 +84,21 @@ func HarnessC19Mergeable() {
 		// pins the predictor's answer).
 		k1 := verif.And(threshold == 1, verif.And(napproved == 0, verif.And(fresh, verr == nil)))
 		verif.Witness("C19-K1", k1)
-		verif.Assert(verif.Or(verr != nil, k1), "not-possible:merge-verifies-for-no-recorder")
+		// Known finding C19-K2: a global threshold rule on the branch is only
+		// relaxed by one for the recorder's signature when the delegation
+		// rule needed that signature too; when the delegation threshold is
+		// already met by approvals and the global rule lacks exactly one
+		// principal, the predictor answers "not possible" although a merge
+		// recorded by a fresh authorised principal verifies.
+		// (the recorder only has to be a principal of the policy that is not
+		// counted yet: global rules count every principal)
+		freshAny := false
+		for k := 0; k < 4; k++ {
+			freshAny = verif.Or(freshAny, verif.And(verif.And(candidate >= 0, candidate == k), !approved[k]))
+		}
+		k2 := verif.And(len(globals) > 0, verif.And(freshAny, verr == nil))
+		verif.Witness("C19-K2", k2)
+		verif.Assert(verif.Or(verr != nil, verif.Or(k1, k2)), "not-possible:merge-verifies-for-no-recorder")
 	case needSig:
 		verif.Reach("predicted-signature-needed")
 		verif.Assert((verr == nil) == fresh, "signature-needed:verifies-iff-recorder-is-a-fresh-authorised-principal")
